@@ -2,5 +2,7 @@ import Preflate.Props.C05
 #print axioms Preflate.parse_no_panic
 #print axioms Preflate.parse_no_fuel
 #print axioms Preflate.tree_index_safe
+#print axioms Preflate.policyUpdate_totalShift
+#print axioms Preflate.chain_positions_in_u16_partial
 #print axioms Preflate.encStream_no_panic
 #print axioms Preflate.verify_path_ok
